@@ -242,14 +242,46 @@ func (x *lexItem) annotated() bool {
 
 // ---- hints -----------------------------------------------------------------------------------------------
 
+// lexHints: what the caller of the reader knows. Tag-keyed entries hold wherever an element is asked for under
+// that tag; path-keyed entries ("@" = the root, "@0.2" = third child of the first child) hold at that position
+// and are looked up first. A typed decoder picks the enumeration / mask type from the Go field it fills, which
+// for AttributeValue depends on the attribute NAME and not on the tag: only positions can say that.
 type lexHints struct {
-	enum map[int]int
-	mask map[int]int
+	enum  map[int]int
+	mask  map[int]int
+	penum map[string]int
+	pmask map[string]int
 }
 
-func lexNewHints() lexHints { return lexHints{map[int]int{}, map[int]int{}} }
+func lexNewHints() lexHints {
+	return lexHints{map[int]int{}, map[int]int{}, map[string]int{}, map[string]int{}}
+}
 
-func (h lexHints) empty() bool { return len(h.enum) == 0 && len(h.mask) == 0 }
+func (h lexHints) empty() bool {
+	return len(h.enum) == 0 && len(h.mask) == 0 && len(h.penum) == 0 && len(h.pmask) == 0
+}
+
+func (h lexHints) maskAt(path string, tag int) (int, bool) {
+	if m, ok := h.pmask[path]; ok {
+		return m, true
+	}
+	m, ok := h.mask[tag]
+	return m, ok
+}
+
+func (h lexHints) enumAt(path string, tag int) int {
+	if e, ok := h.penum[path]; ok {
+		return e
+	}
+	return h.enum[tag]
+}
+
+func lexChildPath(path string, i int) string {
+	if path == "@" {
+		return "@" + strconv.Itoa(i)
+	}
+	return path + "." + strconv.Itoa(i)
+}
 
 func (h lexHints) String() string {
 	if h.empty() {
@@ -279,6 +311,29 @@ func (h lexHints) String() string {
 			parts = append(parts, fmt.Sprintf("%d:M%d", t, m))
 		}
 	}
+	var paths []string
+	seenP := map[string]bool{}
+	for q := range h.penum {
+		if !seenP[q] {
+			seenP[q] = true
+			paths = append(paths, q)
+		}
+	}
+	for q := range h.pmask {
+		if !seenP[q] {
+			seenP[q] = true
+			paths = append(paths, q)
+		}
+	}
+	sort.Strings(paths)
+	for _, q := range paths {
+		if e, ok := h.penum[q]; ok {
+			parts = append(parts, fmt.Sprintf("%s:E%d", q, e))
+		}
+		if m, ok := h.pmask[q]; ok {
+			parts = append(parts, fmt.Sprintf("%s:M%d", q, m))
+		}
+	}
 	return strings.Join(parts, ",")
 }
 
@@ -292,25 +347,58 @@ func lexParseHints(s string) (lexHints, error) {
 		if !ok || len(v) < 2 {
 			return h, fmt.Errorf("hint %q", p)
 		}
-		tag, err1 := strconv.Atoi(t)
 		n, err2 := strconv.Atoi(v[1:])
-		if err1 != nil || err2 != nil {
+		if err2 != nil || (v[0] != 'E' && v[0] != 'M') {
 			return h, fmt.Errorf("hint %q", p)
 		}
-		switch v[0] {
-		case 'E':
-			if _, dup := h.enum[tag]; !dup {
-				h.enum[tag] = n
+		if strings.HasPrefix(t, "@") {
+			for _, ix := range strings.Split(t[1:], ".") {
+				if _, err := strconv.ParseUint(ix, 10, 31); err != nil && t != "@" {
+					return h, fmt.Errorf("hint %q", p)
+				}
 			}
-		case 'M':
-			if _, dup := h.mask[tag]; !dup {
-				h.mask[tag] = n
+			m := h.penum
+			if v[0] == 'M' {
+				m = h.pmask
 			}
-		default:
+			if _, dup := m[t]; !dup {
+				m[t] = n
+			}
+			continue
+		}
+		tag, err1 := strconv.Atoi(t)
+		if err1 != nil {
 			return h, fmt.Errorf("hint %q", p)
+		}
+		m := h.enum
+		if v[0] == 'M' {
+			m = h.mask
+		}
+		if _, dup := m[tag]; !dup {
+			m[tag] = n
 		}
 	}
 	return h, nil
+}
+
+// lexPosHintsOf: the hints of a reader that is told, position by position, what the writer was told
+// (Lean: XItem.hints). Every annotated tree has them.
+func lexPosHintsOf(x *lexItem) lexHints {
+	h := lexNewHints()
+	var walk func(n *lexItem, path string)
+	walk = func(n *lexItem, path string) {
+		switch {
+		case n.kind == tree.KEnum && n.ann != 0:
+			h.penum[path] = n.ann
+		case n.kind == tree.KInt && n.mask:
+			h.pmask[path] = n.ann
+		}
+		for i, c := range n.children {
+			walk(c, lexChildPath(path, i))
+		}
+	}
+	walk(x, "@")
+	return h
 }
 
 // lexHintsOf: what a typed caller reading this tree back passes; consistent = the annotations are a function
@@ -426,14 +514,14 @@ type lexDec struct {
 }
 
 func (d *lexDec) DecodeTTLV(dec *ttlv.Decoder) error {
-	out, err := lexDecodeX(dec, dec.Tag(), d.h)
+	out, err := lexDecodeX(dec, dec.Tag(), d.h, "@")
 	if err == nil {
 		d.out = out
 	}
 	return err
 }
 
-func lexDecodeX(d *ttlv.Decoder, tag int, h lexHints) (*lexItem, error) {
+func lexDecodeX(d *ttlv.Decoder, tag int, h lexHints, path string) (*lexItem, error) {
 	x := &lexItem{tag: tag}
 	var err error
 	ty := d.Type()
@@ -441,7 +529,7 @@ func lexDecodeX(d *ttlv.Decoder, tag int, h lexHints) (*lexItem, error) {
 	case ttlv.TypeInteger:
 		x.kind = tree.KInt
 		var v int32
-		if m, ok := h.mask[tag]; ok {
+		if m, ok := h.maskAt(path, tag); ok {
 			x.mask, x.ann = true, m
 			v, err = d.Bitmask(m, tag)
 		} else {
@@ -470,7 +558,7 @@ func lexDecodeX(d *ttlv.Decoder, tag int, h lexHints) (*lexItem, error) {
 		x.tm, x.i = &t, t.Unix()
 	case ttlv.TypeEnumeration:
 		x.kind = tree.KEnum
-		x.ann = h.enum[tag]
+		x.ann = h.enumAt(path, tag)
 		var v uint32
 		v, err = d.Enum(x.ann, tag)
 		x.i = int64(v)
@@ -491,7 +579,7 @@ func lexDecodeX(d *ttlv.Decoder, tag int, h lexHints) (*lexItem, error) {
 		x.kind = tree.KStruct
 		err = d.Struct(tag, func(d *ttlv.Decoder) error {
 			for d.Tag() != 0 {
-				c, err := lexDecodeX(d, d.Tag(), h)
+				c, err := lexDecodeX(d, d.Tag(), h, lexChildPath(path, len(x.children)))
 				if err != nil {
 					return err
 				}
@@ -1102,10 +1190,16 @@ func (e *lexEnv) writerCase(ctx *Ctx, c *lexCodec, x *lexItem, origin string, bo
 	if x.annotated() {
 		ctx.Res.Count("w." + c.name + ".annotated")
 	}
-	h, consistent := lexHintsOf(x)
-	if !inScope || !consistent {
+	if !inScope {
 		ctx.Res.Count("w." + c.name + ".no-readback")
 		return doc
+	}
+	h, consistent := lexHintsOf(x)
+	if !consistent {
+		// annotations that differ between elements of one tag (the AttributeValue situation): only a reader told
+		// position by position can read the tree back
+		h = lexPosHintsOf(x)
+		ctx.Res.Count("w." + c.name + ".readback-positional")
 	}
 	// C04: the library reads its own document back to a message with the same binary TTLV
 	d := lexDecode(ctx, c, doc, h, line)
@@ -1557,12 +1651,11 @@ func (e *lexEnv) boundaryTrees() []lexTree {
 		chunk = append(chunk, it.x)
 		if len(chunk) == 8 {
 			s := &lexItem{kind: tree.KStruct, tag: 0x420078, children: chunk}
-			_, ok := lexHintsOf(s)
-			out = append(out, lexTree{s, true, ok, true})
+			out = append(out, lexTree{s, true, true, true})
 			chunk = nil
 		}
 	}
-	out = append(out, lexTree{&lexItem{kind: tree.KStruct, tag: 0x420078, children: all}, true, false, true})
+	out = append(out, lexTree{&lexItem{kind: tree.KStruct, tag: 0x420078, children: all}, true, true, true})
 	return out
 }
 
@@ -1865,9 +1958,11 @@ func (e *lexEnv) replay(ctx *Ctx) {
 				}
 			})
 			if doc := e.writerCase(ctx, c, x, "replay", true, inScope); doc != nil {
-				if h, ok := lexHintsOf(x); ok {
-					e.readerCase(ctx, c, doc, h, "replay")
+				h, ok := lexHintsOf(x)
+				if !ok {
+					h = lexPosHintsOf(x)
 				}
+				e.readerCase(ctx, c, doc, h, "replay")
 			}
 		case "lex.xmlr", "lex.jsonr":
 			if len(f) != 4 {
@@ -1924,22 +2019,27 @@ func (e *lexEnv) oneTree(ctx *Ctx, t lexTree, origin string, mutate bool) {
 		codecs = []*lexCodec{lexXML, lexJSON}
 	}
 	h, consistent := lexHintsOf(t.x)
+	ph := lexPosHintsOf(t.x)
+	if !consistent {
+		h = ph
+	}
 	for _, c := range codecs {
 		doc := e.writerCase(ctx, c, t.x, origin, t.boundary, t.inScope)
 		if doc == nil {
 			continue
 		}
-		if consistent {
-			e.readerCase(ctx, c, doc, h, "own")
-		}
-		if !consistent || !h.empty() {
+		e.readerCase(ctx, c, doc, h, "own")
+		if !h.empty() {
 			e.readerCase(ctx, c, doc, lexNewHints(), "own-generic")
+			if consistent {
+				e.readerCase(ctx, c, doc, ph, "own-positional")
+			}
 		}
 		if !mutate {
 			continue
 		}
 		mh := h
-		if !consistent || r.Chance(1, 4) {
+		if r.Chance(1, 4) {
 			mh = lexNewHints()
 		}
 		var muts [][]byte
@@ -2003,7 +2103,7 @@ func lexRun(ctx *Ctx) {
 			origin = "gen-annotated"
 		case 2:
 			if i%6 == 2 {
-				e.decorate(r, x) // annotations that differ between nodes of one tag (AttributeValue): writer side only
+				e.decorate(r, x) // annotations that differ between nodes of one tag (AttributeValue): read back with positional hints
 				origin = "gen-annotated-free"
 			} else if i%12 == 5 {
 				x = e.genAnn(r) // an annotated node at top level
